@@ -125,5 +125,5 @@ Proof.
     + left. destruct (acked c x || idone c x); inv_some. cbn; unfold upd; rewrite Nat.eqb_refl; lia.
   - left. unfold step_start_ctx in H. destruct (p_kind P x); try discriminate.
     destruct (cancelled c x); try discriminate.
-    destruct (spc c x); inv_some; cbn; unfold upd; rewrite Nat.eqb_refl; lia.
+    destruct (p_relfix P); destruct (spc c x); inv_some; cbn; unfold upd; rewrite Nat.eqb_refl; lia.
 Qed.
